@@ -16,7 +16,7 @@ def model_check(ctx):
     grid = [dict(BASE), dict(BASE, Keys={1, 2}, NCallers=2), dict(BASE, Keys={1, 2}, NCallers=2, Fold=True, Blacklisted={2})]
     if not ctx.quick():
         grid += [dict(BASE, MaxTs=3, MaxCalls=4), dict(BASE, Keys={1, 2}, NCallers=3, MaxCalls=4),
-                 dict(BASE, Keys={1, 2, 3}, NCallers=2, MaxCalls=4, Fold=True, Blacklisted={3})]
+                 dict(BASE, Keys={1, 2, 3}, NCallers=2, Fold=True, Blacklisted={3})]
     for c in grid:
         ctx.tlc("Ordered", "Ordered_mc.cfg", consts=c, workers=ctx.pick(4, 6), timeout=3000)
     dev = [("CmpStrict", False, {"Mono", "OnlyNewer", "Independent"}, {}),
@@ -333,7 +333,7 @@ def fold_family(ctx, rng):
                         calls=[e for e in b if e["ev"] in ("begin", "end", "endx")][:24]))
 
     grp = lambda b: b[0]["h"]
-    nb, nrej = validate(ctx, "fold", blocks, on_reject, group=grp)
+    nb, nrej = validate(ctx, "fold", blocks, on_reject, max_rounds=3, group=grp)
 
     # coverage (not a verdict): histories in which a point was forwarded although a sibling input name (same emitted name)
     # had a point with a timestamp >= its own forwarded in a call that had returned before: one register for the emitted
